@@ -259,6 +259,16 @@ fn nest_doc(t: &mut simcore::Tape, fl: Flavour) -> (Vec<u8>, usize) {
 /// A relative IRI reference (RFC 3987 irelative-ref): network-path, absolute-path, no-scheme
 /// path, empty, with colons allowed wherever the grammar allows them (query, fragment, later
 /// segments) — only the generalized parsers, and the others with a base IRI, accept them.
+/// A blank node label that never went through the toolkit's validator: from the pool, or drawn
+/// by character class from the grammar.
+fn raw_label(t: &mut simcore::Tape) -> String {
+    if t.flag() {
+        BNODE_POOL[t.below(BNODE_POOL.len())].to_string()
+    } else {
+        draw_bnode_label(t)
+    }
+}
+
 fn draw_rel_ref(t: &mut simcore::Tape) -> String {
     const SEG: &[&str] = &["a", "b.c", "..", ".", "", "x:y", "%c3%a9", "\u{e9}", "~", "a;b=c", "@"];
     let mut s = String::new();
@@ -342,21 +352,21 @@ fn iri_stress_doc(t: &mut simcore::Tape, fl: Flavour) -> Vec<u8> {
             for _ in 0..n {
                 s.push_str(&format!("<{}> <{}> <{}> <{}> .\n", draw_iri(t), draw_iri(t), draw_iri(t), draw_iri(t)));
                 s.push_str(&format!("<{}> <{}> \"v\"^^<{}> .\n", draw_iri(t), draw_iri(t), draw_iri(t)));
-                s.push_str(&format!("_:{} <{}> \"v\"@{} _:{} .\n", BNODE_POOL[t.below(BNODE_POOL.len())], draw_iri(t), TAG_POOL[t.below(TAG_POOL.len())], BNODE_POOL[t.below(BNODE_POOL.len())]));
+                s.push_str(&format!("_:{} <{}> \"v\"@{} _:{} .\n", raw_label(t), draw_iri(t), TAG_POOL[t.below(TAG_POOL.len())], raw_label(t)));
             }
         }
         Flavour::Nt => {
             for _ in 0..n {
                 s.push_str(&format!("<{}> <{}> <{}> .\n", draw_iri(t), draw_iri(t), draw_iri(t)));
                 s.push_str(&format!("<{}> <{}> \"v\"^^<{}> .\n", draw_iri(t), draw_iri(t), draw_iri(t)));
-                s.push_str(&format!("_:{} <{}> \"v\"@{} .\n", BNODE_POOL[t.below(BNODE_POOL.len())], draw_iri(t), TAG_POOL[t.below(TAG_POOL.len())]));
+                s.push_str(&format!("_:{} <{}> \"v\"@{} .\n", raw_label(t), draw_iri(t), TAG_POOL[t.below(TAG_POOL.len())]));
             }
         }
         _ => {
             // the namespace ends with '/' so that p:x expands to a valid IRI too
             s.push_str(&format!("@prefix p: <{}/> .\n", draw_iri(t)));
             for _ in 0..n {
-                s.push_str(&format!("<{}> <{}> <{}> , \"v\"^^<{}> ; p: p:x , \"v\"@{} , _:{} .\n", draw_iri(t), draw_iri(t), draw_iri(t), draw_iri(t), TAG_POOL[t.below(TAG_POOL.len())], BNODE_POOL[t.below(BNODE_POOL.len())]));
+                s.push_str(&format!("<{}> <{}> <{}> , \"v\"^^<{}> ; p: p:x , \"v\"@{} , _:{} .\n", draw_iri(t), draw_iri(t), draw_iri(t), draw_iri(t), TAG_POOL[t.below(TAG_POOL.len())], raw_label(t)));
             }
             if fl != Flavour::Turtle {
                 s.push_str(&format!("GRAPH <{}> {{ <{}> <{}> <{}> }}\n", draw_iri(t), draw_iri(t), draw_iri(t), draw_iri(t)));
